@@ -141,6 +141,27 @@ func genLoop(r *rand.Rand, b *strings.Builder, id *int, depth int, outerVar stri
 	if typ == "int8" {
 		hi = []string{"n & 15", "10", "120"}[r.Intn(3)]
 	}
+	divDecl := ""
+	if typ == "int" && r.Intn(8) == 0 {
+		// bounds computed by a division / remainder with a negative dividend that is often
+		// inexact (Go truncates toward zero): -9 .. (m-20)/3, and (m-20)%4 .. 6
+		// (the dividend is a local holding a constant: go/ssa keeps the division as an
+		// instruction on two constants, which the analysis evaluates itself)
+		dq := fmt.Sprintf("dq%d", *id)
+		dqv := -(7 + 2*r.Intn(5)) // odd and negative: dqv/2 is inexact
+		divDecl = fmt.Sprintf("%s := %d", dq, dqv)
+		switch r.Intn(4) {
+		case 3:
+			// start is the FLOOR of the quotient, one below what Go computes: runs once
+			lo, hi = fmt.Sprint((dqv-1)/2), dq+" / 2"
+		case 0:
+			lo, hi = "-9", dq+" / 2"
+		case 1:
+			lo, hi = "-12", dq+" / 4"
+		default:
+			lo, hi = dq+" % 4", "6"
+		}
+	}
 	if up {
 		start, bound = lo, hi
 	} else {
@@ -249,6 +270,10 @@ func genLoop(r *rand.Rand, b *strings.Builder, id *int, depth int, outerVar stri
 		if m.Hdr == "while" && m.Extra == "continue" {
 			m.Hdr = "pre" // `continue` would skip the update written at the end of the body
 		}
+	}
+	if divDecl != "" {
+		w("%s", divDecl)
+		w("_ = %s", strings.SplitN(divDecl, " ", 2)[0])
 	}
 	if sharedDecl != "" {
 		w("%s", sharedDecl)
@@ -715,6 +740,17 @@ func judge(res *evid.Result, fm fnMeta, fn *ssa.Function, sites map[int]*recSite
 		stays := len(a.recs)
 		if m.Form == "bottom" {
 			stays = len(a.recs) - 1
+		}
+		// what the analysis' OWN evaluator makes of the annotation (a number only when every
+		// leaf is a constant): a consumer of the annotation evaluates it with this
+		if own := s.loop.TripCount.EvaluateAt(big.NewInt(0), map[loop.SCEV]*big.Int{}); own != nil {
+			res.Eval(1)
+			res.Count("tripcounts_self_evaluated", 1)
+			if own.Cmp(big.NewInt(int64(stays))) != 0 && own.Cmp(T) != 0 {
+				w := replay()
+				w["loop"], w["tripcount"], w["self_evaluated"], w["stays"] = m, s.loop.TripCount.String(), own.String(), stays
+				res.Violate("tripcount/self-evaluation", fmt.Sprintf("%s loop %d: TripCount %s evaluates to %s under Go arithmetic and the body runs %d times, but the analysis' own EvaluateAt gives %s", fm.Name, a.L, s.loop.TripCount.String(), T, stays, own), w)
+			}
 		}
 		res.Eval(1)
 		res.Count("tripcounts_judged", 1)
